@@ -135,6 +135,48 @@ CLAIMED = {
         note="TLC 1.8; goroutines are serialised by the verif hooks (one protocol step at a time), 'blocked' is the goroutine wait reason sync.Mutex.Lock read from runtime.Stack; <= 6 goroutines, 2-4 tables per configuration; schedules sampled (random bursts + one per transition of the DBImpl.tla state graph).",
         technique="TLA+ spec DBImpl.tla (deadlock + liveness by TLC); schedule replay through blocking hooks; TLC trace validation",
         design_ref="4.7, 5.3, 7 (C10)"),
+    "C14": dict(
+        engine="rec",
+        text="RecTrace.tla is a TLA+ monitor of the reconciler contract over the events at its boundary (user writes, every commit "
+             "with its changed objects, every Update/Delete/Prune call with its outcome). drv_rec drives the real reconciler "
+             "(hive + job cells) under virtual time with per-call failure patterns, writes injected while operations are in "
+             "flight, round sizes 1..1000, batch and single mode; after the last failure/change time advances by "
+             "(failures+2) x (max backoff+100 ms) and TLC checks that every live object is Done with its latest contents in the "
+             "target and every removed object is gone (C14_Converged_*).",
+        note='TLC 1.8; virtual time (testing/synctest), instantaneous operations, refresh loop disabled; every commit to the reconciled table is observed at its linearization point through the verif hook commit.stored; sampled environment scripts (<= 4 objects, <= 6 failures).',
+        technique="TLA+ trace specification RecTrace.tla (monitor) checked by TLC on logs of the real reconciler under virtual time",
+        design_ref="4.9, 5.5, 7 (C14)"),
+    "C15": dict(
+        engine="rec",
+        text="RecTrace.tla checks every commit made by the reconciler against the table state before it and the last operation for "
+             "that object: status-only (C15_StatusOnly), right version and outcome (C15_RightVersion/RightOutcome), no deleted "
+             "object re-created (C15_NoResurrect), Done objects not updated again (C15_NotPendingNotUpdated), Prune only when "
+             "initialized and with the complete table of its snapshot (C15_Prune*). drv_rec places update / delete / delete+re-insert / "
+             "status-only writes of a second writer between an operation and its status commit, for every outcome.",
+        note='TLC 1.8; virtual time (testing/synctest), instantaneous operations, refresh loop disabled; every commit to the reconciled table is observed at its linearization point through the verif hook commit.stored; sampled environment scripts (<= 4 objects, <= 6 failures).',
+        technique="TLA+ trace specification RecTrace.tla (monitor) checked by TLC on logs of the real reconciler under virtual time",
+        design_ref="4.9, 5.5, 7 (C15)"),
+    "C16": dict(
+        engine="rec",
+        text="RecTrace.tla measures, in virtual milliseconds, the wait between a failure and its retry: >= minimum backoff, not "
+             "shrinking over consecutive failures, <= maximum + slack on an idle reconciler, restart after the object changes; "
+             "WaitUntilReconciled(rev) returning without error requires an attempt at a revision >= the last user change <= rev of "
+             "every object, and at quiescent moments the reported low watermark must be 0 iff no failed object awaits retry, else "
+             "the smallest revision passed to a failed call.",
+        note='TLC 1.8; virtual time (testing/synctest), instantaneous operations, refresh loop disabled; every commit to the reconciled table is observed at its linearization point through the verif hook commit.stored; sampled environment scripts (<= 4 objects, <= 6 failures).',
+        technique="TLA+ trace specification RecTrace.tla (monitor) checked by TLC on logs of the real reconciler under virtual time",
+        design_ref="4.9, 5.5, 7 (C16)"),
+    "C20": dict(
+        engine="ws",
+        text="WatchSetProp.tla states the contract of Wait on call/return values (only closed members returned, exactly the returned "
+             "removed, no empty result unless the context ended, context error, return no later than first close + settle or "
+             "context end); WatchSet.tla is a code-shaped timed machine and TLC checks that all its returns satisfy the contract "
+             "for all 40 000 scenarios of the bounded model; TLC prints those scenarios, drv_ws executes them (and random larger "
+             "ones, incl. a second Wait on the same set) on the real WatchSet under virtual time and TLC evaluates the contract on "
+             "every logged return.",
+        note="TLC 1.8; virtual time (testing/synctest); simultaneous events may be served in any order; Add is not called concurrently with Wait.",
+        technique="TLA+ specs WatchSetProp.tla/WatchSet.tla; TLC model checking, TLC-enumerated scenarios replayed, TLC trace validation",
+        design_ref="4.8, 7 (C20)"),
 }
 
 ALL = [f"C{i:02d}" for i in range(1, 21)]
@@ -186,6 +228,10 @@ def main():
             {"name": "sched", "path": "harness/drv_sched.go + spec/DBImpl.tla + spec/gen/GenDBImpl.tla + spec/trace/SchedTrace.tla",
              "serves_properties": ["C02", "C05", "C06", "C08", "C10", "C19"],
              "kind_free_text": "deterministic goroutine scheduler on the verif hooks + probes after every protocol step, validated by TLC"},
+            {"name": "rec", "path": "harness/drv_rec.go + spec/trace/RecTrace.tla",
+             "serves_properties": ["C14", "C15", "C16"], "kind_free_text": "reconciler under virtual time, monitored by a TLA+ trace specification"},
+            {"name": "ws", "path": "harness/drv_ws.go + spec/WatchSetProp.tla + spec/WatchSet.tla + spec/trace/WSTrace.tla",
+             "serves_properties": ["C20"], "kind_free_text": "WatchSet.Wait scenarios under virtual time validated by TLC"},
         ],
         "checks": checks,
         "not_applicable": na,
